@@ -14,6 +14,7 @@ import (
 	"google.golang.org/protobuf/proto"
 
 	"github.com/tink-crypto/tink-go/v2/aead"
+	"github.com/tink-crypto/tink-go/v2/aead/aesgcm"
 	"github.com/tink-crypto/tink-go/v2/daead"
 	"github.com/tink-crypto/tink-go/v2/hybrid"
 	"github.com/tink-crypto/tink-go/v2/hybrid/hpke"
@@ -537,5 +538,60 @@ func TestKeyIDs(t *testing.T) {
 		if d := float64(top) - float64(n)/2; d*d > 64*float64(n)/4 {
 			t.Errorf("key-id/%s: %d of %d ids have the top bit set", route, top, n)
 		}
+	}
+	// Distinctness when the generator is about to repeat itself: a real collision of two 32-bit
+	// candidates needs about 2^16 keys per manager, so the entropy source is rewound instead. Two
+	// ID-assigning operations on ONE manager are run from the same entropy state; whenever the second
+	// one draws the candidate the first one was given, the manager has to notice that the ID is
+	// taken. Every ordered pair of the public ways to get a random ID (added after seeded change
+	// C20g, which left the IDs of two of these paths unreserved). A pair whose second operation draws
+	// its candidate from another stream position simply yields different IDs: never a false alarm.
+	rawKey := tk.Must(aeadcase.FromBytes(2*6+0, 5)).K
+	gcmParams := tk.Must(aesgcm.NewParameters(aesgcm.ParametersOpts{KeySizeInBytes: 16, IVSizeInBytes: 12, TagSizeInBytes: 16, Variant: aesgcm.VariantTink}))
+	envelope := tk.Must(aead.CreateKMSEnvelopeAEADKeyTemplate("fake-kms://c20-key-ids", aead.AES128GCMKeyTemplate()))
+	paths := []struct {
+		name string
+		f    func(m *keyset.Manager) (uint32, error)
+	}{
+		{"Add(AES128GCM template)", func(m *keyset.Manager) (uint32, error) { return m.Add(aead.AES128GCMKeyTemplate()) }},
+		{"Add(KMS envelope template: key type without parameters parser)", func(m *keyset.Manager) (uint32, error) { return m.Add(envelope) }},
+		{"AddKey(key without ID requirement)", func(m *keyset.Manager) (uint32, error) { return m.AddKey(rawKey) }},
+		{"AddNewKeyFromParameters", func(m *keyset.Manager) (uint32, error) { return m.AddNewKeyFromParameters(gcmParams) }},
+	}
+	same := 0
+	for round := uint64(0); round < 8; round++ {
+		for _, p1 := range paths {
+			for _, p2 := range paths {
+				m := keyset.NewManager()
+				s := seed() + 1000 + round
+				detrand.Seed(s)
+				a, err := p1.f(m)
+				if err != nil {
+					t.Fatalf("%s: %v", p1.name, err)
+				}
+				// what would the second operation draw on an empty manager from this entropy state?
+				detrand.Seed(s)
+				probe, err := p2.f(keyset.NewManager())
+				if err != nil {
+					t.Fatalf("%s: %v", p2.name, err)
+				}
+				detrand.Seed(s)
+				b, err := p2.f(m)
+				if err != nil {
+					t.Fatalf("%s: %v", p2.name, err)
+				}
+				if probe == a {
+					same++
+				}
+				if a == b {
+					t.Errorf("key id %#x handed out twice by one manager: by %s and then by %s (entropy source rewound to the same state)", a, p1.name, p2.name)
+				}
+			}
+		}
+	}
+	evid.Add("key_id_rewind_pairs", int64(8*len(paths)*len(paths)))
+	evid.Add("key_id_rewind_pairs_with_equal_first_candidate", int64(same))
+	if same == 0 {
+		t.Errorf("harness: rewinding the entropy source never made two operations draw the same candidate ID")
 	}
 }
